@@ -714,4 +714,21 @@ theorem tie_lowerMapDecisions (b : Bool) :
 theorem tie_loadJsonDecisions (b : Bool) : loadJsonCond0 b = !b ∧ loadJsonCond1 b = !b ∧ loadJsonCond2 b = !b :=
   ⟨rfl, rfl, rfl⟩
 
+/-- `FMeta.tagKey` as `conf` reads it (`getTagName`): the tag up to the first ',' (a ',' at position 0 included: the
+name is then empty), trimmed; an empty name ⇒ the field's Go name. -/
+theorem tie_cGetTagName : cGetTagName =
+    ["if ok", "call field.Tag.Lookup(jsonTagKey)", "if pos >= 0", "call strings.IndexByte(tag, jsonTagSep)",
+     "call strings.TrimSpace(tag)", "if len(tag) > 0", "call len(tag)", "return tag", "return field.Name"] := by rfl
+
+/-- the tag is cut at EVERY separator position ≥ 0 (`strings.IndexByte` returns -1 for none), the cut name is used
+iff it is non-empty. -/
+theorem tie_tagNameDecisions (pos : Int) (n : Nat) (b : Bool) :
+    tagNameCondCount = 3 ∧ tagNameCond0 b = b ∧ tagNameCond1 pos = decide (0 ≤ pos) ∧
+    tagNameCond2 (n : Int) = decide (n ≠ 0) := by
+  refine ⟨rfl, rfl, rfl, ?_⟩
+  cases n with
+  | zero => rfl
+  | succ k =>
+    simp [tagNameCond2]
+
 end GoZero.C17.Tie
